@@ -202,9 +202,9 @@ example : ∃ fuel₀, ∀ fuel, fuel₀ ≤ fuel →
   `++`/`--` on variables, expression statements, compound statements, `if`, `if`-`else`, `while`, `do`,
   `for` (any clause may be missing, the first may be a declaration), `break`, `continue`, `return`; the
   expressions are those of 𝔽₁ over parameters and locals.  `CSem2.WT` (decidable) is what the parser
-  guarantees (typing, declaration before use) plus two restrictions of the MODEL: no statement follows a
+  guarantees (typing, declaration before use) plus one restriction of the MODEL: no statement follows a
   `return`/`break`/`continue` in the same block (there cproc opens a block `dead.N` lazily, which
-  `Lower2` places differently), and `++`/`--` is not applied to a `_Bool` object.  The theorems hold
+  `Lower2` places differently).  The theorems hold
   for ALL such functions: any size, any nesting of loops and branches, any number of variables (up to
   the stack bound), all in-range arguments, any fuel of the C execution. -/
 
@@ -314,6 +314,15 @@ example : CSem2.runC true 20
 example : CSem2.runC true 20
     { name := "d", ret := .int, params := [.int], locals := [],
       body := .seq (.incdec 0 .int false) (.ret (.param .int 0)) } [-2147483648] = none := by decide
+
+/-- `++`/`--` on `_Bool` (`loadub`, `add`/`sub`, `cnew`, `storeb`): `b--` turns 0 into 1 -/
+def ex8 : CSem2.Func :=
+  { name := "b", ret := .int, params := [.bool], locals := [],
+    body := .seq (.incdec 0 .bool false) (.seq (.incdec 0 .bool true) (.seq (.incdec 0 .bool false)
+      (.ret (.cast .int (.param .bool 0))))) }
+example : CSem2.WT ex8 := by decide
+example : CSem2.runC true 20 ex8 [0] = some 0 := by decide   -- 0 → 1 → 1 → 0
+example : CSem2.runC true 20 ex8 [1] = some 0 := by decide   -- 1 → 0 → 1 → 0
 
 /-- loops: `int k(int n) { int s = 0; int i; for (i = 0; i < n; i = i + 1) { if (i == 3) continue;
     if (i > 7) break; s = s + i; } while (n) { n = n - 1; } do { s = s + 1; } while (s < 3); return s; }` -/
